@@ -86,9 +86,25 @@ def expected(d, accel):
     fm_regs("IFM", ifm, out)
     out["NPU_SET_IFM_DEPTH_M1"] = u16(ifm["shape"][2] - 1)
     ies = ESIZE[ifm.get("dtype", "INT8")]
-    if t != "ew":     # elementwise add/sub may set the operand-to-scale bits: left to the scaling property
-        out["NPU_SET_IFM_PRECISION"] = SIGNED[ifm.get("dtype", "INT8")] | (PREC[ies] << 2) | \
-            ((1 << 6) if ifm.get("layout") == "NHCWB16" else 0)
+    prec = SIGNED[ifm.get("dtype", "INT8")] | (PREC[ies] << 2) | ((1 << 6) if ifm.get("layout") == "NHCWB16" else 0)
+    if t != "ew":
+        out["NPU_SET_IFM_PRECISION"] = prec
+    elif d.get("sub") in ("ADD", "SUB") and d.get("rescale") is None and d.get("ifm2") is not None:
+        # operand-to-scale bits (9:8): with unequal input scales the operand holding the tensor with the SMALLER scale is
+        # rescaled (1 = operand A, 2 = operand B); operand A is the IFM unless the operands are reversed.  Equal scales
+        # may or may not use this mode (depends on the derived output scale): not compared.
+        s1 = None if ifm.get("noquant") else ifm.get("scale", 1.0)
+        s2 = None if d["ifm2"].get("noquant") else d["ifm2"].get("scale", 1.0)
+        so = None if ofm.get("noquant") else ofm.get("scale", 1.0)
+        if None in (s1, s2, so):
+            out["NPU_SET_IFM_PRECISION"] = prec
+        elif s1 != s2:
+            ifm_is_smaller = s1 < s2
+            a_is_ifm = not d.get("reversed")
+            bits = 1 if (ifm_is_smaller == a_is_ifm) else 2
+            out["NPU_SET_IFM_PRECISION"] = prec | (bits << 8)
+    elif d.get("sub") not in ("ADD", "SUB"):
+        out["NPU_SET_IFM_PRECISION"] = prec
     out["NPU_SET_IFM_UPSCALE"] = UPSCALE[d.get("upscale", "NONE")]
     if d.get("pad") is not None or t != "ew":
         p = d.get("pad") or [0, 0, 0, 0]
